@@ -62,7 +62,9 @@ Bodies == {"bare", "empty_parens", "ident", "two_idents", "unknown_ident", "int_
            \* the legacy `types(..)` list inside each of the reference-kind wrappers
            "legacy_in_owned", "legacy_in_ref", "legacy_in_ref_mut",
            \* `rename_all = "<casing>"` for each of the eight casings (the Display-like derives convert the item's / variant's name)
-           "rename_lower", "rename_upper", "rename_pascal", "rename_camel", "rename_snake", "rename_scream", "rename_kebab", "rename_screamkebab"}
+           "rename_lower", "rename_upper", "rename_pascal", "rename_camel", "rename_snake", "rename_scream", "rename_kebab", "rename_screamkebab",
+           \* the legacy `fmt = ..` form with nothing usable after it: a non-string value, no value at all, several non-strings
+           "legacy_fmt_int", "legacy_fmt_none", "legacy_fmt_nonstr", "legacy_fmt_only_args"}
 
 \* a position only exists on shapes that have it
 HasPosition(shape, pos) ==
